@@ -16,17 +16,23 @@ def gen_trace(rng, tid):
     pc = rng.choice([1, 2, 3, 4, 5, 7, 8])
     ops = [{"op": "create_stream", "name": "s", "id": 1},
            {"op": "create_topic", "stream": 1, "name": "t", "parts": pc, "id": 1},
-           {"op": "create_group", "stream": 1, "topic": 1, "name": "g", "id": 1},
-           # a second topic of the same stream with a group of the same number: memberships there must not interfere
-           {"op": "create_topic", "stream": 1, "name": "t2", "parts": 2, "id": 2},
-           {"op": "create_group", "stream": 1, "topic": 2, "name": "g", "id": 1}]
+           {"op": "create_group", "stream": 1, "topic": 1, "name": "g", "id": 1}]
+    # a group of the same number elsewhere - in a second topic of the same stream, or in the same-numbered topic of a second
+    # stream: memberships there must not interfere (and must end with the connection)
+    if rng.random() < 0.5:
+        ds, dt = 1, 2
+        ops += [{"op": "create_topic", "stream": 1, "name": "t2", "parts": 2, "id": 2}, {"op": "create_group", "stream": 1, "topic": 2, "name": "g", "id": 1}]
+    else:
+        ds, dt = 2, 1
+        ops += [{"op": "create_stream", "name": "s2", "id": 2}, {"op": "create_topic", "stream": 2, "name": "t", "parts": 2, "id": 1},
+                {"op": "create_group", "stream": 2, "topic": 1, "name": "g", "id": 1}]
     nid = [1]
     connected, joined = set(), set()
     decoy = set()
 
     def decoy_join(c):
         if rng.random() < 0.5 and c not in decoy:
-            ops.append({"op": "join_group", "c": c, "stream": 1, "topic": 2, "group": 1})
+            ops.append({"op": "join_group", "c": c, "stream": ds, "topic": dt, "group": 1})
             decoy.add(c)
 
     def send_all(k):
@@ -90,7 +96,7 @@ def gen_trace(rng, tid):
             ops.append({"op": "poll_store" if manual else "poll", "c": c, "stream": 1, "topic": 1, "kind": "next", "value": 0, "count": rng.choice([1, 2, 5]),
                         "consumer": {"kind": "group", "id": rng.choice([1, 1, "g"])}, "auto_commit": True})
     ops.append({"op": "get_group", "stream": 1, "topic": 1, "group": 1})
-    ops.append({"op": "get_group", "stream": 1, "topic": 2, "group": 1})       # must stay the last operation (see run)
+    ops.append({"op": "get_group", "stream": ds, "topic": dt, "group": 1})       # must stay the last operation (see run)
     return {"id": tid, "cfg": {"req": 1000, "seg_size": 1000000, "cache": False}, "ops": ops, "pc": pc, "decoy": sorted(decoy)}
 
 
@@ -196,7 +202,7 @@ def run(out, tier, seed, gate):
             got = sorted(p for m in d.get("members", []) for p in m["parts"])
             if d.get("r") != "ok" or d["members_count"] != len(t["decoy"]) or (t["decoy"] and got != [1, 2]) or (not t["decoy"] and got):
                 out.violation("other-topic-%s" % t["id"], {"kind": "spec-monitor", "mode": "srv", "trace": {k: v for k, v in t.items() if k in ("id", "cfg", "ops")}, "listing": d, "expected_members": len(t["decoy"]),
-                                                          "what": "the group of the same number in another topic of the stream does not list exactly its connected members with the partitions split among them"})
+                                                          "what": "the group of the same number in another topic / in the same-numbered topic of another stream does not list exactly its connected members with the partitions split among them"})
                 continue
         if err:
             out.violation("fail-%s" % t["id"], {"kind": "spec-monitor", "mode": "srv", "trace": t, "what": "a valid consumer-group command failed", "detail": err})
